@@ -224,6 +224,8 @@ V['context.do_collection'] = dict(
     loops={0: dict(invariant_except_break=_DC_INV, ensures=_DC_LOOP_ENS, decreases='trank(has_slept, self@.phase), measure(self@)')},
     body_serves=['C08', 'C09', 'C01', 'C02'],
     loop_serves={'terminates': ['C02', 'C09']},
+    # the one boolean local declared `= false` before the loop (set when the call passes through Sleep): the contracts call it has_slept
+    local_names={'has_slept': r'let mut (\w+) = false;'},
     # the I-credit clauses are proved on a second copy of the same extracted body (smaller solver queries)
     views=({'pace': dict(clauses={'pace'}, base={'inv', 'terminates', 'history'}), 'exact': dict(clauses={'exact', 'dead_is_unreachable', 'dead_is_unreachable_xcall'}, base={'inv', 'terminates', 'history', 'finish_marking', 'never_leaves_marked', 'finish_cycle', 'cycle_stops_at_sleep'})}),
 )
@@ -349,7 +351,7 @@ _k('K.debt.zero_factors_work_never_pays', 'k_debt_zero_factors_work_never_pays',
 _k('K.debt.finish_cycle_state', 'k_debt_finish_cycle_state', ['C09', 'C10'], 'finish_cycle: per-cycle counters reset, Gc count untouched, wake-up = max(min_sleep, sleep_factor x survivors), unpaid debt carried over exactly (reset: none)')
 _k('K.debt.finish_cycle_reset', 'k_debt_finish_cycle_reset', ['C09'], 'allocation_debt() == 0 right after finish_cycle(true) (axiom ax_debt_reset)')
 _k('K.debt.sleep_honoured', 'k_debt_sleep_honoured', ['C09'], 'after a debt-free finish: debt 0 while allocations <= wake-up amount, > 0 once they exceed it')
-_k('K.debt.wakeup_formula', 'k_debt_wakeup_formula', ['C09'], 'wake-up amount = max(min_sleep, sleep_factor x survivors)', tier='thorough')
+_k('K.debt.wakeup_formula', 'k_debt_wakeup_formula', ['C09'], 'wake-up amount = max(min_sleep, sleep_factor x survivors) for every power-of-two sleep factor, every survivor count and every min_sleep in range, all other counters symbolic', complete='bounded: sleep_factor a power of two 2^-8 .. 2^8 (two float products with symbolic mantissas compared = multiplier equivalence, does not finish in CBMC: > 50 min); survivors, min_sleep < 2^52')
 _k('K.debt.formula_pairing', 'k_debt_formula_pairing', ['C09', 'C10'], 'credit side of the debt formula: debt == max(0, allocated - (marked x mark_factor + traced x trace_factor + remembered x keep_factor + dropped x drop_factor + freed x free_factor)), each counter paired with its own factor', complete='bounded: counters < 2^8, factors fixed to five distinct powers of two, wake-up amount and carried debt 0 (relational float queries over symbolic factors do not terminate in CBMC)')
 _k('K.debt.wakeup_uses_survivors', 'k_debt_wakeup_uses_survivors', ['C09'], 'the wake-up amount is computed from the survivors of the finished cycle (remembered), independent of every other counter: with sleep_factor 1/2 and min_sleep 0 it is exactly survivors / 2', complete='bounded: sleep_factor = 0.5, min_sleep = 0, survivors < 2^32 (stand-in in the quick tier for the thorough row K.debt.wakeup_formula)')
 _k('K.debt.adjust', 'k_debt_adjust', ['C10'], 'adjust_debt(x) adds exactly x to the artificial-debt term of the formula and touches nothing else')
@@ -470,6 +472,8 @@ _P = ['C01', 'C06', 'C13', 'C20']
 _k('K.path.gc_write', 'k_path_gc_write_field_unlock_set', ['C01', 'C06', 'C20'], 'Gc::write + field!/unlock! + Cell::set establishes can_adopt for every phase x colours; frame; second arena untouched')
 _k('K.path.gc_unlock', 'k_path_gc_unlock', ['C01', 'C06'], 'Gc::unlock')
 _k('K.path.lock_set', 'k_path_lock_set', ['C01', 'C06'], 'Gc<Lock<T>>::set')
+_k('K.path.lock_set_weak', 'k_path_lock_set_weak', ['C06', 'C05'], 'Gc<Lock<T>>::set adopting a GcWeak: the same barrier, whatever kind of pointer the new value holds')
+_k('K.path.write_field_unlock_set_weak', 'k_path_gc_write_field_unlock_set_weak', ['C06', 'C05'], 'Gc::write + field projection + unlock + set adopting a GcWeak')
 _k('K.path.reflock_borrow_mut', 'k_path_reflock_borrow_mut', ['C01', 'C06'], 'Gc<RefLock<T>>::borrow_mut')
 _k('K.path.reflock_try_borrow_mut', 'k_path_reflock_try_borrow_mut', ['C01', 'C06'], 'Gc<RefLock<T>>::try_borrow_mut')
 _k('K.path.oncelock_set', 'k_path_oncelock_set', ['C01', 'C06'], 'Gc<OnceLock<T>>::set')
@@ -491,13 +495,14 @@ for _n, _t in (('u8', 'u8'), ('u16', 'u16'), ('u64', 'u64'), ('u128', 'u128 (ali
 _k('K.layout.slice_kernel', 'k_layout_slice_kernel', ['C17', 'C04'], 'SliceWithHeader::layout for EVERY length (0 included) x 6 (header, element) pairs incl. zero-sized and over-aligned: aligned for header and elements, room for both; thin <-> fat reconstructs the length')
 for _n in ('u16_u32', 'unit_u128', 'u8_a32', 'a32_u8'):
     _k('K.layout.inst.slice_' + _n, 'k_layout_inst_slice_' + _n, ['C17', 'C04', 'C18'], 'header+slice allocation with SYMBOLIC length: element / header pointers aligned, abandoning the builder releases the identical layout')
-_k('K.conv.ptr_eq_metadata', 'k_conv_ptr_eq_ignores_metadata', ['C19'], 'Gc::ptr_eq is identity of the allocation: two Gc<dyn Trait> with the same address and different vtable pointers are ptr_eq; different objects are not')
+_k('K.conv.ptr_eq_metadata', 'k_conv_ptr_eq_ignores_metadata', ['C19'], 'Gc::ptr_eq and GcWeak::ptr_eq are identity of the allocation: two dyn pointers with the same address and different vtable pointers are ptr_eq; different objects are not')
 _k('K.conv.identity_sized', 'k_conv_identity_sized', ['C19', 'C04'], 'erase, erase_kind, downgrade->upgrade, as_ptr/from_ptr, unsize! to dyn, cast: same address, same header/vtable, original value; destructed exactly once as the original type')
 _k('K.conv.thin_fat_slice', 'k_conv_thin_fat_slice', ['C17', 'C19'], 'GcSlice as_thin / as_fat / from_ptr_with_kind on real allocations: address kept, length reconstructed', complete='bounded: slice length <= 3')
 _k('K.conv.thin_fat_str', 'k_conv_thin_fat_str', ['C17', 'C19'], 'GcStr thin <-> fat', complete='bounded: "" and "abc"', tier='thorough')
 _k('K.builder.slice_abandon', 'k_slice_builder_abandon', ['C18', 'C11'], 'slice-with-header builder abandoned before the header / after the header / after k of n elements: destructs exactly header + initialised prefix, releases the block, arena never sees it', complete='bounded: n <= 3 elements (k symbolic)')
 _k('K.builder.write_slice_with', 'k_slice_builder_write_slice_with', ['C18', 'C11'], 'write_slice_with creates elements in order and completes with contents equal to what was written; one allocation registered', complete='bounded: n <= 3 elements')
 _k('K.builder.write_slice_with_zst', 'k_slice_builder_write_slice_with_zst', ['C18', 'C11'], 'write_slice_with for zero-sized elements: the constructor runs once per element, in order; exactly the created elements are destructed', complete='bounded: n <= 3 elements')
+_k('K.builder.slice_abandon_plain', 'k_slice_builder_abandon_plain_elements', ['C18', 'C11'], 'abandoned slice builder with plain-data elements under a header that has a destructor (and the reverse): header destructed once / exactly the initialised prefix destructed, whether or not the element type needs dropping', complete='bounded: n <= 3 elements (k symbolic)')
 _k('K.builder.copy_wrong_length', 'k_slice_builder_copy_wrong_length_panics', ['C18'], 'copy_slice with a source of the wrong length panics before copying or linking (should_panic row)', complete='bounded: lengths <= 3')
 _k('K.zst.only_fitting', 'k_zst_cache_only_fitting_zsts', ['C19'], 'ZstCache<1|8|16>: the shared pointer is returned only for zero-sized T with align_of::<T>() <= MAX_ALIGN; returned pointers are aligned for T; shared allocations are ptr_eq to the cached pointer')
 _k('K.zst.pointer_alignment', 'k_zst_cache_pointer_alignment', ['C19', 'C17'], 'the cached pointer is aligned to MAX_ALIGN')
